@@ -18,6 +18,10 @@ class Inconclusive(Exception):
     pass
 
 
+class NotABit(Inconclusive):
+    """A comparison that is decidedly not one bit of its operand (e.g. a threshold that is not a power-of-two boundary)."""
+
+
 class Form:
     __slots__ = ("bits", "tails", "const")
 
